@@ -170,13 +170,17 @@ Section Resolve.
     end.
 End Resolve.
 
-(* `fuel`: the length of the chain (1: D declares Generic[..] itself); `tv` tells which values are TypeVars: the
-   subclass binds all parameters *)
-Definition chain_binding (tv : val -> bool) (w : world) (fuel : nat) (c : nat) (ts xs : list val) : Prop :=
+(* the TypeVars of the world: the type parameters (__parameters__) of its classes *)
+Definition is_param (w : world) (v : val) : bool :=
+  existsb (fun cr => existsb (fun p => val_eqb p v) (c_params (snd cr))) (w_classes w).
+
+(* `fuel`: the length of the chain (1: D declares Generic[..] itself).  The subclass binds all parameters: no resolved
+   argument is a TypeVar of the world *)
+Definition chain_binding (w : world) (fuel : nat) (c : nat) (ts xs : list val) : Prop :=
   exists pre d zs post, lookup_ob w c = Some (pre ++ VAlias (VCls d) zs :: post) /\
     forallb (front_ok w) pre = true /\ uses_mixin w d = true /\
     forallb is_base post = true /\ existsb is_generic_alias post = false /\
-    resolve w fuel d zs = Some (ts, xs) /\ distinct_keys [] ts = true /\ forallb (fun x => negb (tv x)) xs = true.
+    resolve w fuel d zs = Some (ts, xs) /\ distinct_keys [] ts = true /\ forallb (fun x => negb (is_param w x)) xs = true.
 
 (* chains of length 1: the binding base declares Generic[ts] itself *)
 Definition binding_subclass (w : world) (c : nat) (ts xs : list val) : Prop :=
@@ -217,20 +221,52 @@ Definition binding_subclass_b (w : world) (c : nat) (ts xs : list val) : bool :=
   match lookup_ob w c with Some bases => binding_scan w bases ts xs | None => false end.
 
 (* executable form of chain_binding: the mapping `resolve` yields is the one the driver expects *)
-Definition chain_binding_b (tv : val -> bool) (w : world) (fuel : nat) (c : nat) (ts xs : list val) : bool :=
-  match lookup_ob w c with
-  | Some bases =>
-      match binding_base w [] bases with
-      | Some (d, zs, front, post) =>
-          forallb (front_ok w) front && forallb is_base post && negb (existsb is_generic_alias post) &&
-          match resolve w fuel d zs with
-          | Some (ts', xs') => toks_eqb ts' ts && toks_eqb xs' xs && distinct_keys [] ts && forallb (fun x => negb (tv x)) xs
-          | None => false
-          end
+Definition chain_bases_b (w : world) (fuel : nat) (bases : list val) (ts xs : list val) : bool :=
+  match binding_base w [] bases with
+  | Some (d, zs, front, post) =>
+      forallb (front_ok w) front && forallb is_base post && negb (existsb is_generic_alias post) &&
+      match resolve w fuel d zs with
+      | Some (ts', xs') => toks_eqb ts' ts && toks_eqb xs' xs && distinct_keys [] ts && forallb (fun x => negb (is_param w x)) xs
       | None => false
       end
   | None => false
   end.
+
+Definition chain_binding_b (w : world) (fuel : nat) (c : nat) (ts xs : list val) : bool :=
+  match lookup_ob w c with Some bases => chain_bases_b w fuel bases ts xs | None => false end.
+
+(* ----- full statements that are FALSE on the pinned tree (open findings), as executable predicates ----- *)
+
+(* "non-generic class": neither Generic[..] nor a parametrised base that uses the mixin among the __orig_bases__ found
+   (none found at all, or only classes and parametrised bases that have nothing to do with the mixin).
+   Demanded: AssertionError.  Proved for "none found" (lookup_ob = None); with a foreign parametrised base
+   (class N1(List[int], GenericMixin)) _get_types raises AttributeError: K-C20-nongeneric-foreign-base *)
+Definition non_generic_b (w : world) (c : nat) : bool :=
+  match lookup_ob w c with None => true | Some bs => forallb (front_ok w) bs end.
+
+(* "unparametrised instance": the class of the instance has type parameters and the instance no __orig_class__.
+   Demanded: AssertionError.  Proved for a class that declares Generic[..] (direct_generic); for a forwarding /
+   partially binding class (class Mid(A[T]); Mid()) type_vars returns {T: T}: K-C20-unparametrised-forwarding *)
+Definition has_params_b (w : world) (c : nat) : bool :=
+  match class_params w c with Some (_ :: _) => true | _ => false end.
+
+(* "extra mixin bases in any order", one inheritance level lower: on the MRO of the class, in front of the class s
+   whose class statement binds the parameters, there may be classes without __orig_bases__ of their own and classes
+   all of whose __orig_bases__ are classes or parametrised bases that have nothing to do with the mixin
+   (class Extra(List[int]); class S(D[str]); class S2(Extra, S)).  Demanded: the mapping of s.
+   Proved when the classes in front have no __orig_bases__ (inherits_bases_of); with Extra in front _get_types raises
+   AttributeError: K-C20-foreign-subclass-first-on-mro *)
+Fixpoint mro_chain_b (w : world) (fuel : nat) (mro : list nat) (ts xs : list val) : bool :=
+  match mro with
+  | [] => false
+  | m :: r =>
+      match own_ob w m with
+      | None => mro_chain_b w fuel r ts xs
+      | Some bs => if forallb (front_ok w) bs then mro_chain_b w fuel r ts xs else chain_bases_b w fuel bs ts xs
+      end
+  end.
+Definition mro_chain_binding_b (w : world) (fuel : nat) (c : nat) (ts xs : list val) : bool :=
+  match find_cls c (w_classes w) with Some r => mro_chain_b w fuel (c_mro r) ts xs | None => false end.
 
 (* the instance was made as C[xs]() / as C() *)
 Definition oc_matches (oc : option val) (args : option (list val)) : Prop :=
@@ -316,15 +352,21 @@ Definition simple_val (v : val) : bool :=
   end.
 Definition no_outer (m : mdef) : bool := match m_outer m with [] => true | _ => false end.
 (* a property may do anything when read, also raise, and may hand out any object (get_decorated_functions does not
-   evaluate properties since fix 3728f44; before: finding K-C20-raising-property) *)
-Definition getter_ok (m : mdef) : bool :=
+   evaluate properties since fix 3728f44; before: finding K-C20-raising-property).  Other non-function attributes are
+   read: ordinary data in the domain; a descriptor that raises when read (functools.cached_property, a custom
+   descriptor) is in the domain of the statement as well, but makes get_decorated_functions raise: open finding
+   K-C20-raising-descriptor, guard no_raising_getter *)
+Definition getter_dom (m : mdef) : bool :=
   match m_wrap m with
   | WProperty _ => no_outer m
   | WGetter (AVal v) => simple_val v && no_outer m
-  | WGetter _ => false
+  | WGetter (ARaise _) => no_outer m
+  | WGetter (AProp _) => false
   | WClassMethod | WStaticMethod => no_outer m
   | WPlain => true
   end.
+Definition raising_getter (m : mdef) : bool := match m_wrap m with WGetter (ARaise _) => true | _ => false end.
+Definition getter_ok (m : mdef) : bool := getter_dom m && negb (raising_getter m).
 Definition reserved (name : string) : bool := String.eqb name "type_var" || String.eqb name "type_vars".
 Definition reserved_ok (m : mdef) : bool := negb (reserved (m_name m)) || negb (is_method m).
 
@@ -336,6 +378,13 @@ Definition claimed_def (m : mdef) : bool :=
 
 Definition claimed (cd : list mdef) : bool :=
   forallb claimed_def cd && nodup_str (map m_name cd).
+
+(* the domain of the statement (claimed = in_domain + no descriptor that raises when read) *)
+Definition in_domain_def (m : mdef) : bool :=
+  forallb tr_keeps (all_decos m) && forallb value_ok (all_decos m) && nodup_str (map d_type (all_decos m)) &&
+  getter_dom m && reserved_ok m.
+Definition in_domain (cd : list mdef) : bool := forallb in_domain_def cd && nodup_str (map m_name cd).
+Definition no_raising_getter (cd : list mdef) : bool := forallb (fun m => negb (raising_getter m)) cd.
 
 (* two names for one object (alias = m1 in the class body) describe the same object *)
 Definition alias_consistent (cd : list mdef) : Prop :=
